@@ -75,7 +75,7 @@ _seq("C02", "exact results",
      "same enumeration as C01 with the exactness oracle: result multiset ⊆ stored, reference-verified rows, equality without prefilter and the whole-block union rule with prefilter",
      "as C01; rows with duplicate raw-JSON keys are identified with their stored row (their materialisation is C03's subject); scheduler part: two concurrent queries over pooled scan buffers (deterministic LIFO pool, Pool.Get/Put are scheduling points) must each return exactly the stored matching multiset",
      "bounded-exhaustive input and history enumeration against a reference model (explicit enumeration, no sampling); stateless model checking of two concurrent queries under the controlled scheduler",
-     extra_parts=[{"engine": "sched", "family": "C03", "budget": {"quick": 100, "thorough": 900}}], budget={"quick": 200, "thorough": 1800})
+     extra_parts=[{"engine": "sched", "family": "C03", "only": "pool-", "budget": {"quick": 200, "thorough": 900}}], budget={"quick": 200, "thorough": 1800})
 _seq("C23", "statistics account for every block once",
      "per-block accounting rules evaluated on the Stats of every query of the C01 enumeration, against block contents read back through the public helpers",
      "sweep part: fault-free completions; fault part: a failure at every DataStore call position of 10 queries x 5 layouts x concurrency {1,4}; scheduler part: queries ended by Close or cancellation while a block scan is unfinished (450-row block, 66-row block, injected faults) - at-most-once, processed source of every returned row, zero counts for skipped blocks; all-or-none per file is not asserted for queries ended by Close or cancellation (blocks never reached are not evaluated blocks)",
